@@ -174,6 +174,16 @@ def run(c) -> CaseResult:
             if not bitequal(a, b):
                 res.fail(f"C15.grad[{rtag}]", f"gradient wrt {name} differs from the hand-quantised reference (fwd={fwd}, bwd={bwd})\n{src}")
                 break
+    # inference: without gradient tracking the operands are still quantised
+    try:
+        with patch("torch.randint", pinned), torch.no_grad():
+            i1 = {k: v.clone() for k, v in inputs.items()}
+            y_ng = qm(**i1) if c["root"] == "program" else qm(i1["x"])
+            yr_ng = reference(P, {k: v.clone() for k, v in inputs.items()}, mode)
+        if not bitequal(y_ng, yr_ng):
+            res.fail(f"C15.value.no_grad[{rtag}]", f"under torch.no_grad() the transformed module differs from the hand-quantised reference (fwd={fwd}, bwd={bwd})\n{src}")
+    except Exception as e:  # noqa: BLE001
+        res.fail(exc_bucket("C15.raises.no_grad", e).replace("outside-library", "via-dynamo")[:300], f"{type(e).__name__}: {str(e)[:300]}\n{src}")
     # lossless format: bit-identical to the untransformed module (no harness arithmetic at all)
     if lossless(c["fwd"]) and lossless(c["bwd"]) and c["via"] == "simulate_format":
         f0 = prep(inputs)
